@@ -287,6 +287,20 @@ impl Corpus {
                         let out = ops::apply_lib(&mut loc, op);
                         s.push_str(&format!(" ; {}->{out:?} => {loc} #{:016x}", ops::op_name(op), h(&loc)));
                     }
+                    // the getters as iterators, driven past their end (a feature-gated iterator type
+                    // of its own shows in these numbers or as a PANIC line)
+                    fn ad<I: ExactSizeIterator>(mk: impl Fn() -> I) -> String {
+                        let n = mk().len();
+                        let mut a = mk();
+                        let _ = a.nth(n + 2);
+                        let mut b = mk();
+                        let _ = b.nth(n / 2);
+                        let mut c = mk().skip(n + 1);
+                        let _ = c.next();
+                        format!("{n}/{}/{:?}/{}/{}/{}/{}", a.len(), a.size_hint(), a.next().is_some(), b.len(), c.len(), mk().count())
+                    }
+                    let e = &loc.extensions;
+                    s.push_str(&format!(" ; iter v={} a={} k={} t={} p={}", ad(|| loc.id.variants()), ad(|| e.unicode.attributes()), ad(|| e.unicode.keyword_keys()), ad(|| e.transform.tfield_keys()), ad(|| e.private.tags())));
                     s
                 });
                 (opsv.iter().any(ops::is_mutation), format!("{} {}", ops::history_case(&start, &opsv), r.unwrap_or_else(|p| format!("PANIC {}", panic_sig(&p)))))
